@@ -388,8 +388,16 @@ def judge_until(case, program, changes):
 def judge_till(case, rng):
     """run(..., till=T) executes nothing at a virtual time later than T"""
     from .c01 import TimingGen
-    gen = TimingGen(rng)
-    program = gen.program()
+    general = rng.random() < 0.5
+    if general:
+        # programs over the whole API, heavy on nested blocks whose children hand follow-up
+        # work to their scope from their clean-up code - also when they are closed at `till`
+        from ..gen import Gen
+        program = Gen(rng, weights={'guard': 8, 'scope': 12, 'until': 6, 'spawn': 4, 'wait': 12,
+                                    'raise': 0, 'graceful': 3},
+                      max_depth=3, max_steps=4, max_roots=3).program()
+    else:
+        program = TimingGen(rng).program()
     start = program['start']
     horizon = rng.choice([0, 0, 0.5, 1, 2, 3, 5, 20])
     till = start + horizon
@@ -401,7 +409,7 @@ def judge_till(case, rng):
         if vio['mechanism'].startswith(('kernel-clock', 'run-ended', 'internal-error', 'foreign-',
                                         'leaked')):
             violations.append(dict(vio))
-    if env.outcome != 'ok':
+    if env.outcome != 'ok' and not general:
         violations.append({'mechanism': 'c07:run-till-failed',
                            'msg': 'run(till=%r) from %r ended with %s' % (till, start, env.outcome)})
     late = [(label, when) for label, when in sess.trace
@@ -413,7 +421,8 @@ def judge_till(case, rng):
     if late_events:
         violations.append({'mechanism': 'c07:executed-after-till',
                            'msg': 'run(till=%r): event %r' % (till, late_events[0])})
-    stats = {'till_runs': 1, 'till_cut_short': int(any(True for ev in sess.events
+    stats = {'till_runs': 1, 'till_general_programs': int(general),
+             'till_cleanup_spawns': sess.stats.get('cleanup_spawns', 0), 'till_cut_short': int(any(True for ev in sess.events
                                                          if ev[2] == 'exc')),
              'activations': sess.n}
     for vio in violations:
